@@ -3,6 +3,7 @@ package main
 import (
 	"fmt"
 	"go/ast"
+	"go/constant"
 	"go/token"
 	"go/types"
 	"sort"
@@ -1784,5 +1785,454 @@ func ruleSibReflectRange(c *Ctx, r *R) {
 			}
 			r.check(lower && upper, key, c.Pos(instrPos(cv)), "operand bounded below and above before the conversion", fmt.Sprintf("the %s arm of Value.toReflectValue converts a %s to %s with%s%s: a script number outside the range of the Go type reaches the host function wrapped or saturated instead of raising a RangeError", to.Name(), from.Name(), to.Name(), map[bool]string{true: "", false: " no lower-bound test"}[lower], map[bool]string{true: "", false: " no upper-bound test"}[upper]))
 		}
+	}
+}
+
+// ---- SPEC-identifier-env, IDX-base, LADDER-suffix ---------------------------------------------------------------------
+
+func init() {
+	register(&Rule{ID: "SPEC-identifier-env", Props: []string{"C01"}, Min: 3,
+		Doc: "S (ES5 §10.3.1, §11.1.2, §12.2): identifier resolution starts at the running execution context's LexicalEnvironment. Every call of getIdentifierReference from the evaluator passes scope.lexical (the recursive step passes the outer environment of the one it was given); resolving from the VariableEnvironment instead skips the object environment of an enclosing `with` and the declarative environment of a `catch`, so `with (o) { var x = 1 }` and `catch (x) { var x = 1 }` assign the wrong binding",
+		Run: ruleSpecIdentifierEnv})
+	register(&Rule{ID: "IDX-base", Props: []string{"C04", "C03"}, Min: 4,
+		Doc: "P (unit rule): in package parser a file.Idx is 'base + offset' and a byte offset is 'idx - base'. Every conversion between file.Idx and int carries the parser's base in the same arithmetic (int(idx) - p.base, file.Idx(p.base + offset)) or converts a constant / the base itself. A conversion without it is right only for the first file of a FileSet (base 1) and scans from the wrong place - or panics - in every later one",
+		Run: ruleIdxBase})
+	register(&Rule{ID: "LADDER-suffix", Props: []string{"C03"}, Min: 2,
+		Doc: "S (ES5 §11.2: MemberExpression : MemberExpression . IdentifierName | MemberExpression [ Expression ] | new MemberExpression Arguments): in the two left-hand-side parsing functions the result of parsing a `new` expression and the result of parsing a primary expression both flow into the member-suffix loop; neither is returned directly. `new new A().B()` parses as `new ((new A()).B)()` only if `.B` is attached to `new A()` before the outer `new` takes its arguments",
+		Run: ruleLadderSuffix})
+}
+
+func ruleSpecIdentifierEnv(c *Ctx, r *R) {
+	target := c.SSAFunc(c.LookupFunc("", "getIdentifierReference"))
+	if target == nil {
+		r.undecided("unresolved:getIdentifierReference", "-", "UNRESOLVED: getIdentifierReference not found")
+		return
+	}
+	n := 0
+	for _, fn := range c.AllSrcFuncs("") {
+		ord := 0
+		for _, b := range fn.Blocks {
+			for _, ins := range b.Instrs {
+				call, ok := ins.(*ssa.Call)
+				if !ok || call.Call.StaticCallee() != target || len(call.Call.Args) < 2 {
+					continue
+				}
+				n++
+				ord++
+				key := fmt.Sprintf("%s#%d", ssaFuncName(fn), ord)
+				site := c.Pos(instrPos(call))
+				env := call.Call.Args[1]
+				if fn == target {
+					// the recursive step: outer() of the environment it was given
+					okRec := false
+					if ci, isCall := env.(*ssa.Call); isCall && ci.Call.IsInvoke() && ci.Call.Method.Name() == "outer" {
+						okRec = true
+					}
+					r.check(okRec, key, site, "recursion continues with the outer environment", "the recursive step of getIdentifierReference must continue with stash.outer()")
+					continue
+				}
+				field := ""
+				if a := loadAddr(env); a != nil {
+					if nt, f := fieldOfAddr(a); nt != nil && nt.Obj().Name() == "scope" {
+						field = f.Name()
+					}
+				}
+				r.check(field == "lexical", key, site, "resolution starts at scope.lexical", fmt.Sprintf("§10.3.1: identifier resolution must start at the LexicalEnvironment (scope.lexical); this call starts at %q: inside `with` or `catch` the reference binds in the wrong environment", field))
+			}
+		}
+	}
+	if n < 3 {
+		r.undecided("sites", "-", fmt.Sprintf("only %d call sites of getIdentifierReference found (3 + the recursive one on the pinned tree)", n))
+	}
+}
+
+func ruleIdxBase(c *Ctx, r *R) {
+	isIdx := func(t types.Type) bool {
+		n, ok := t.(*types.Named)
+		return ok && n.Obj().Name() == "Idx" && n.Obj().Pkg() != nil && n.Obj().Pkg().Path() == ottoPath+"/file"
+	}
+	isBaseLoad := func(v ssa.Value) bool {
+		a := loadAddr(v)
+		if a == nil {
+			return false
+		}
+		_, f := fieldOfAddr(a)
+		return f != nil && f.Name() == "base"
+	}
+	for _, fn := range c.AllSrcFuncs("parser") {
+		ord := 0
+		for _, b := range fn.Blocks {
+			for _, ins := range b.Instrs {
+				// file.Idx has underlying type int: go/ssa represents the conversion as ChangeType
+				cv, ok := ins.(*ssa.ChangeType)
+				if !ok {
+					continue
+				}
+				toIdx, fromIdx := isIdx(cv.Type()), isIdx(cv.X.Type())
+				if toIdx == fromIdx {
+					continue
+				}
+				if b, isBasic := cv.Type().Underlying().(*types.Basic); !isBasic || b.Info()&types.IsInteger == 0 {
+					continue
+				}
+				if _, isConst := cv.X.(*ssa.Const); isConst {
+					continue
+				}
+				ord++
+				key := fmt.Sprintf("%s#%d", ssaFuncName(fn), ord)
+				site := c.Pos(instrPos(cv))
+				okBase := false
+				if toIdx {
+					// file.Idx(base + offset) or file.Idx(base)
+					if isBaseLoad(cv.X) {
+						okBase = true
+					}
+					if bo, ok := cv.X.(*ssa.BinOp); ok && bo.Op == token.ADD && (isBaseLoad(bo.X) || isBaseLoad(bo.Y)) {
+						okBase = true
+					}
+				} else {
+					// int(idx) - base
+					for _, ref := range *cv.Referrers() {
+						if bo, ok := ref.(*ssa.BinOp); ok && bo.Op == token.SUB && bo.X == ssa.Value(cv) && isBaseLoad(bo.Y) {
+							okBase = true
+						}
+					}
+				}
+				r.check(okBase, key, site, "the conversion carries the file base", fmt.Sprintf("%s converts between file.Idx and int without the parser's base in the same expression: positions and offsets then agree only for base 1 (a nil FileSet or the first file of a set); in any later file the scanner starts from the wrong byte", ssaFuncName(fn)))
+			}
+		}
+	}
+}
+
+func ruleLadderSuffix(c *Ctx, r *R) {
+	n := 0
+	for _, fn := range c.AllSrcFuncs("parser") {
+		if fn.Parent() != nil {
+			continue
+		}
+		// the left-hand-side functions: call both parseNewExpression and parsePrimaryExpression
+		var newCall, primCall *ssa.Call
+		for _, b := range fn.Blocks {
+			for _, ins := range b.Instrs {
+				if call, ok := ins.(*ssa.Call); ok {
+					if callee := call.Call.StaticCallee(); callee != nil {
+						switch callee.Name() {
+						case "parseNewExpression":
+							newCall = call
+						case "parsePrimaryExpression":
+							primCall = call
+						}
+					}
+				}
+			}
+		}
+		if newCall == nil || primCall == nil {
+			continue
+		}
+		n++
+		// the suffix loop: a block that calls parseDotMember / parseBracketMember
+		var loopCalls []*ssa.Call
+		for _, b := range fn.Blocks {
+			for _, ins := range b.Instrs {
+				if call, ok := ins.(*ssa.Call); ok {
+					if callee := call.Call.StaticCallee(); callee != nil && (callee.Name() == "parseDotMember" || callee.Name() == "parseBracketMember") {
+						loopCalls = append(loopCalls, call)
+					}
+				}
+			}
+		}
+		key := ssaFuncName(fn)
+		if len(loopCalls) == 0 {
+			r.bad(key+":loop", c.Pos(fn.Pos()), "the left-hand-side function no longer has a member-suffix loop (parseDotMember / parseBracketMember)")
+			continue
+		}
+		for _, src := range []struct {
+			what string
+			call *ssa.Call
+		}{{"new expression", newCall}, {"primary expression", primCall}} {
+			// no Return may yield the call's result directly (through conversions only): it must come back through the loop phi
+			direct := false
+			for _, b := range fn.Blocks {
+				for _, ins := range b.Instrs {
+					ret, ok := ins.(*ssa.Return)
+					if !ok || len(ret.Results) != 1 {
+						continue
+					}
+					v := ret.Results[0]
+					for d := 0; d < 4; d++ {
+						switch x := v.(type) {
+						case *ssa.ChangeInterface:
+							v = x.X
+							continue
+						case *ssa.MakeInterface:
+							v = x.X
+							continue
+						}
+						break
+					}
+					if v == ssa.Value(src.call) {
+						direct = true
+					}
+				}
+			}
+			// and the loop must be reachable from the call
+			reachesLoop := false
+			for _, lc := range loopCalls {
+				if reachesInstr(src.call, lc) {
+					reachesLoop = true
+				}
+			}
+			r.check(!direct && reachesLoop, key+":"+src.what, c.Pos(instrPos(src.call)), "flows into the member-suffix loop", fmt.Sprintf("§11.2: in %s the %s is returned without passing through the member-suffix loop: `.name` and `[expr]` after it are left to the caller, so `new new A().B()` binds the arguments to the wrong constructor", ssaFuncName(fn), src.what))
+		}
+	}
+	if n < 2 {
+		r.undecided("functions", "-", fmt.Sprintf("%d left-hand-side parsing functions found (2 on the pinned tree)", n))
+	}
+}
+
+// ---- LIB-tofixed-magnitude, ORDER-array-define -------------------------------------------------------------------------
+
+func init() {
+	register(&Rule{ID: "LIB-tofixed-magnitude", Props: []string{"C06"}, Min: 1,
+		Doc: "S (ES5 §15.7.4.5 steps 6-7): toFixed makes x non-negative (step 6) before it compares it with 10^21 (step 7): the comparison with 1e21 that selects the ToString layout is applied to the magnitude of the receiver (math.Abs), or both signs are compared. A one-sided test sends (-1e21).toFixed(2) and -Infinity into strconv.FormatFloat's 'f' layout",
+		Run: ruleLibToFixedMagnitude})
+	register(&Rule{ID: "ORDER-array-define", Props: []string{"C08", "C07"}, Min: 1,
+		Doc: "P (ES5 §15.4.5.1 step 4.c-4.e): defining an array element beyond the current length first defines the element (and rejects if that fails) and only then raises `length`. In the index branch of the array's [[DefineOwnProperty]] the ordinary define of the element cannot be reached from the define of the length property: raising length first leaves a sealed / non-extensible array with a longer length and no element when the element is refused",
+		Run: ruleOrderArrayDefine})
+}
+
+func ruleLibToFixedMagnitude(c *Ctx, r *R) {
+	fn := c.Shape().boundSSA(c, "Number.prototype")["toFixed"]
+	if fn == nil {
+		r.undecided("unresolved:toFixed", "-", "UNRESOLVED: Number.prototype.toFixed")
+		return
+	}
+	is1e21 := func(v ssa.Value) (bool, bool) { // matches, negative
+		k, ok := v.(*ssa.Const)
+		if !ok || k.Value == nil {
+			return false, false
+		}
+		f, _ := constant.Float64Val(constant.ToFloat(k.Value))
+		return f == 1e21 || f == -1e21, f < 0
+	}
+	var abs, pos, neg bool
+	var site ssa.Instruction
+	for _, b := range fn.Blocks {
+		for _, ins := range b.Instrs {
+			bo, ok := ins.(*ssa.BinOp)
+			if !ok {
+				continue
+			}
+			for _, pair := range [][2]ssa.Value{{bo.X, bo.Y}, {bo.Y, bo.X}} {
+				if m, negative := is1e21(pair[1]); m {
+					site = bo
+					if call, ok := pair[0].(*ssa.Call); ok {
+						if callee := call.Call.StaticCallee(); callee != nil && callee.Pkg != nil && callee.Pkg.Pkg.Path() == "math" && callee.Name() == "Abs" {
+							abs = true
+						}
+					}
+					if negative {
+						neg = true
+					} else {
+						pos = true
+					}
+				}
+			}
+		}
+	}
+	if site == nil {
+		r.undecided("threshold", c.Pos(fn.Pos()), "UNRESOLVED: no comparison with 1e21 in Number.prototype.toFixed")
+		return
+	}
+	r.check(abs || (pos && neg), "magnitude", c.Pos(instrPos(site)), "the 1e21 threshold is applied to |x|", "§15.7.4.5 steps 6-7: the comparison with 1e21 is applied to the signed receiver: negative receivers of magnitude >= 1e21 (and -Infinity) are formatted with the fixed layout instead of ToString(x)")
+}
+
+func ruleOrderArrayDefine(c *Ctx, r *R) {
+	var fn *ssa.Function
+	for _, f := range slotImplsOf(c)["defineOwnProperty"] {
+		if strings.HasPrefix(f.Name(), "array") {
+			fn = f
+		}
+	}
+	if fn == nil {
+		r.undecided("unresolved:arrayDefineOwnProperty", "-", "UNRESOLVED: the array class has no defineOwnProperty implementation")
+		return
+	}
+	// calls of the ordinary define: classified by their name argument (the constant "length" or something else)
+	var lengthDefs, elemDefs []*ssa.Call
+	for _, b := range fn.Blocks {
+		for _, ins := range b.Instrs {
+			call, ok := ins.(*ssa.Call)
+			if !ok || call.Call.StaticCallee() == nil || call.Call.StaticCallee().Name() != "objectDefineOwnProperty" || len(call.Call.Args) < 2 {
+				continue
+			}
+			if k, ok := call.Call.Args[1].(*ssa.Const); ok {
+				if str, isStr := constStringVal(k); isStr && str == "length" {
+					lengthDefs = append(lengthDefs, call)
+					continue
+				}
+			}
+			elemDefs = append(elemDefs, call)
+		}
+	}
+	// the index branch: element defines dominated by a stringToArrayIndex call
+	var idxCall ssa.Instruction
+	for _, ci := range staticCallsIn(fn, "stringToArrayIndex") {
+		idxCall = ci
+	}
+	if idxCall == nil || len(lengthDefs) == 0 || len(elemDefs) == 0 {
+		r.undecided("unresolved:shape", c.Pos(fn.Pos()), fmt.Sprintf("UNRESOLVED: index test found=%v, length defines=%d, element defines=%d", idxCall != nil, len(lengthDefs), len(elemDefs)))
+		return
+	}
+	n := 0
+	for _, e := range elemDefs {
+		if !dominatesInstr(idxCall, e) {
+			continue // the name == "length" branch and the fall-through
+		}
+		for _, l := range lengthDefs {
+			if !dominatesInstr(idxCall, l) {
+				continue
+			}
+			n++
+			r.check(!reachesInstr(l, e), fmt.Sprintf("element-before-length#%d", n), c.Pos(instrPos(e)), "the element is defined before length is raised", "§15.4.5.1 step 4: in the index branch the length property is redefined before the element: when the element's define is rejected (sealed or non-extensible array) length has already grown")
+		}
+	}
+	if n == 0 {
+		r.undecided("pairs", c.Pos(fn.Pos()), "no element/length define pair found in the index branch")
+	}
+}
+
+// ---- SIB-regexp-scan, CLONE-otto ---------------------------------------------------------------------------------------
+
+func init() {
+	register(&Rule{ID: "SIB-regexp-scan", Props: []string{"C10"}, Min: 3,
+		Doc: "T (sibling agreement, ES5 §15.10.1: the body of a group is a Disjunction, the same grammar as the whole pattern): the pattern translator's top-level loop and its group loop dispatch on the current character over the same alternatives - escape, nested group, character class - and hand each to the same sub-scanner. Only the closing parenthesis is treated differently. A group loop without the character-class case scans `[)]` inside a group as ordinary text and rejects valid patterns",
+		Run: ruleSibRegexpScan})
+	register(&Rule{ID: "CLONE-otto", Props: []string{"C17", "C18", "C20"}, Min: 1,
+		Doc: "O: Otto.Copy builds the new Otto from nothing but the cloned runtime: it does not copy the receiver's struct value and does not read the receiver's Interrupt channel. A copy that shares the template's Interrupt channel can consume an interrupt meant for the template (which then keeps running) and is halted by interrupts it never asked for",
+		Run: ruleCloneOtto})
+}
+
+func ruleSibRegexpScan(c *Ctx, r *R) {
+	pp := c.Pkg("parser")
+	if pp == nil {
+		r.undecided("unresolved:parser", "-", "UNRESOLVED: package parser")
+		return
+	}
+	info := pp.TypesInfo
+	cases := map[string]map[string]map[string]bool{} // function -> case char -> sub-scanners called
+	sites := map[string]string{}
+	for _, f := range pp.Syntax {
+		for _, d := range f.Decls {
+			fd, ok := d.(*ast.FuncDecl)
+			if !ok || fd.Recv == nil || fd.Body == nil || (fd.Name.Name != "scan" && fd.Name.Name != "scanGroup") {
+				continue
+			}
+			if n := derefNamed(info.TypeOf(fd.Recv.List[0].Type)); n == nil || n.Obj().Name() != "regExpParser" {
+				continue
+			}
+			ast.Inspect(fd.Body, func(n ast.Node) bool {
+				sw, ok := n.(*ast.SwitchStmt)
+				if !ok || sw.Tag == nil {
+					return true
+				}
+				sel, ok := unparen(sw.Tag).(*ast.SelectorExpr)
+				if !ok || sel.Sel.Name != "chr" {
+					return true
+				}
+				if cases[fd.Name.Name] != nil {
+					return true
+				}
+				cases[fd.Name.Name] = map[string]map[string]bool{}
+				sites[fd.Name.Name] = c.Pos(sw.Pos())
+				for _, st := range sw.Body.List {
+					cc := st.(*ast.CaseClause)
+					for _, e := range cc.List {
+						tv, ok := info.Types[e]
+						if !ok || tv.Value == nil {
+							continue
+						}
+						v, _ := constant.Int64Val(constant.ToInt(tv.Value))
+						ch := string(rune(v))
+						calls := map[string]bool{}
+						for _, bs := range cc.Body {
+							ast.Inspect(bs, func(m ast.Node) bool {
+								if ce, ok := m.(*ast.CallExpr); ok {
+									if s2, ok := ce.Fun.(*ast.SelectorExpr); ok && strings.HasPrefix(s2.Sel.Name, "scan") {
+										calls[s2.Sel.Name] = true
+									}
+								}
+								return true
+							})
+						}
+						cases[fd.Name.Name][ch] = calls
+					}
+				}
+				return true
+			})
+		}
+	}
+	top, grp := cases["scan"], cases["scanGroup"]
+	if top == nil || grp == nil {
+		r.undecided("unresolved:switches", "-", "UNRESOLVED: the character switches of regExpParser.scan / scanGroup were not found")
+		return
+	}
+	var chars []string
+	for ch := range top {
+		if ch != ")" {
+			chars = append(chars, ch)
+		}
+	}
+	sort.Strings(chars)
+	for _, ch := range chars {
+		want := strings.Join(sortedKeys(top[ch]), ",")
+		got, has := grp[ch]
+		key := fmt.Sprintf("case:%q", ch)
+		switch {
+		case !has:
+			r.bad(key, sites["scanGroup"], fmt.Sprintf("the group loop has no case for %q, which the top-level loop hands to %s: inside a group that construct is scanned as ordinary characters", ch, want))
+		case strings.Join(sortedKeys(got), ",") != want:
+			r.bad(key, sites["scanGroup"], fmt.Sprintf("for %q the top-level loop calls %s but the group loop calls %s", ch, want, strings.Join(sortedKeys(got), ",")))
+		default:
+			r.ok(key, sites["scanGroup"], "both loops call "+want)
+		}
+	}
+	for ch := range grp {
+		if _, ok := top[ch]; !ok {
+			r.bad(fmt.Sprintf("extra:%q", ch), sites["scanGroup"], fmt.Sprintf("the group loop has a case for %q that the top-level loop lacks", ch))
+		}
+	}
+}
+
+func ruleCloneOtto(c *Ctx, r *R) {
+	var fn *ssa.Function
+	for _, f := range c.AllSrcFuncs("") {
+		if f.Parent() == nil && f.Name() == "Copy" && f.Signature.Recv() != nil && typeIs(f.Signature.Recv().Type(), ottoPath, "Otto") {
+			fn = f
+		}
+	}
+	if fn == nil || len(fn.Params) == 0 {
+		r.undecided("unresolved:Otto.Copy", "-", "UNRESOLVED: (*Otto).Copy not found")
+		return
+	}
+	recv := fn.Params[0]
+	bad := ""
+	var at ssa.Instruction
+	for _, ref := range *recv.Referrers() {
+		switch x := ref.(type) {
+		case *ssa.UnOp: // *o: the whole struct is copied
+			bad, at = "copies the receiver's Otto value as a whole (out := *o)", x
+		case *ssa.FieldAddr:
+			_, f := fieldOfAddr(x)
+			if f != nil && f.Name() != "runtime" {
+				bad, at = "reads the receiver's field "+f.Name(), x
+			}
+		case *ssa.DebugRef:
+		}
+	}
+	if bad == "" {
+		r.ok("fresh", c.Pos(fn.Pos()), "the copy is built from the cloned runtime only")
+	} else {
+		r.bad("fresh", c.Pos(instrPos(at)), "(*Otto).Copy "+bad+": the copy inherits the template's Interrupt channel, so an interrupt sent to one of them can be consumed by the other")
 	}
 }
